@@ -52,8 +52,15 @@ func c17Check(c c17Case) vfResult {
 		for _, b := range c17Boundaries {
 			add(b)
 		}
-		for L := 1; L <= n+1; L += 37 {
+		stride := 37
+		if n > 20000 {
+			stride = n / 150
+		}
+		for L := 1; L <= n+1; L += stride {
 			add(L)
+		}
+		for _, b := range []int{65535, 65536, 65537, 1 << 20, 1<<20 + 1} {
+			add(b)
 		}
 		add(n - 1)
 		add(n)
@@ -200,6 +207,16 @@ func c17Gen(t *rapid.T) c17Case {
 	}
 	if len(x) > 5000 {
 		x = x[:5000]
+	}
+	if rapid.IntRange(0, 199).Draw(t, "hugefile") == 0 {
+		// a real-size file: the same header followed by 70 KB - 1.2 MB of data
+		tail := make([]byte, rapid.SampledFrom([]int{70000, 300000, 1200000}).Draw(t, "hugetail"))
+		if rapid.Bool().Draw(t, "patterned") {
+			for i := range tail {
+				tail[i] = byte(i * 7)
+			}
+		}
+		x = append(x, tail...)
 	}
 	return c17Case{X: x}
 }
